@@ -16,7 +16,7 @@ LEAN = build.LEAN
 ALLOWED_AXIOMS = {"propext", "Classical.choice", "Quot.sound"}
 FORBIDDEN = [r"\bsorry\b", r"\badmit\b", r"^\s*axiom\s", r"\bnative_decide\b", r"\bbv_decide\b",
              r"implemented_by", r"\bunsafe\s", r"maxHeartbeats\s+0\b"]
-PARTIAL_OK = {"Main.lean", os.path.join("BlocV", "Proto.lean"), os.path.join("BlocV", "SExp.lean"), os.path.join("BlocV", "DrvC18.lean"), os.path.join("BlocV", "DrvC12.lean")}
+PARTIAL_OK = {"Main.lean", os.path.join("BlocV", "Proto.lean"), os.path.join("BlocV", "SExp.lean"), os.path.join("BlocV", "DrvC18.lean"), os.path.join("BlocV", "DrvC12.lean"), os.path.join("BlocV", "DrvC15.lean")}
 
 HAZARD_CRASH = {
     "nullDeref": lambda c: c in ("segv", "ubsan:null") or c.startswith("asan:"),
